@@ -62,6 +62,7 @@ PRIMS = {"V": "void", "Z": "boolean", "B": "byte", "S": "short", "C": "char",
 SEGS = ["java", "javax", "lang", "language", "langx", "ref", "annotation", "a", "l", "ja"]
 NAMES = ["String", "Long", "annotation", "a", "L", "Object$1"]
 SIZES = [None, 0, 7]
+DEEP = ["I", "Ljava/lang/String;", "Ljava/lang/ref/String;", "Ljava/language/a;"]     # elements also tried at 255 dimensions
 NSHARDS = 40
 
 
@@ -72,11 +73,15 @@ def _bounds(ctx):
 def space(ctx):
     pd, ad = _bounds(ctx)
     return {"primitives": sorted(PRIMS), "package_segments": SEGS, "package_depth": [0, pd], "simple_names": NAMES,
-            "array_depth": [0, ad], "size_argument": [repr(s) for s in SIZES],
+            "array_depth": [0, ad], "array_depth_maximum_255_for": DEEP, "size_argument": [repr(s) for s in SIZES],
             "functions": ["androguard.decompiler.util.get_type", "androguard.core.dex.get_type"],
             "source_positions": {"descriptors": SRC_TYPES, "positions": ["field", "param", "return", "local", "cast",
                                  "instanceof", "const-class", "new-instance", "static-field-owner", "invoke-owner",
-                                 "new-array", "class-name", "extends", "implements", "constructor"]}}
+                                 "new-array", "class-name", "extends", "implements", "constructor"],
+                                 "entry_points": ["DvClass.get_source()", "DvClass.get_source_ext() / DvMethod.get_source_ext() tokens",
+                                                  "DvClass.get_ast() (process(doAST=True))"],
+                                 "decoy_history": "same class/field/method names with the types rotated, decompiled first",
+                                 "interface_order": "both orders (alternating with the class index)"}}
 
 
 # ---------------------------------------------------------------------------------- reference model
@@ -186,7 +191,8 @@ SRC_ARRAYS = ["[I", "[[J", "[[[Z", "[B", "[S", "[[C", "[F", "[[[D",
               "[Ljava/language/String;", "[[Ljava/langx/L;", "[[[Ljava/language/a/annotation;",
               "[La/java/lang/String;", "[[Ljavax/java/lang/Long;", "[[[Ll/java/lang/a;",
               "[Ljavax/lang/String;", "[[Ljava/ref/String;", "[[[Lja/lang/Long;",
-              "[Llang/String;", "[[La/l/Object$1;", "[[[Lref/annotation/a;"]
+              "[Llang/String;", "[[La/l/Object$1;", "[[[Lref/annotation/a;",
+              "[" * 255 + "I", "[" * 255 + "Ljava/lang/ref/String;"]          # the maximum number of dimensions
 SRC_TYPES = list("ZBSCIJFDV") + SRC_CLASSES + SRC_ARRAYS
 N_SRC = 24
 OBJ = "Ljava/lang/Object;"
@@ -205,13 +211,17 @@ class SourceLayout(Exception):
     """The decompiled text does not have the layout the extractor expects (harness problem, not a violation)."""
 
 
-def _super_of(t):
+def _super_of(t, decoy=False):
+    """superclass and the two interfaces of the generated class named t (interface order alternates with the index, so
+    both orders of every pair shape occur; the decoy uses other neighbours)."""
     i = SRC_CLASSES.index(t)
     n = len(SRC_CLASSES)
-    return SRC_CLASSES[(i + 7) % n], (SRC_CLASSES[(i + 13) % n], SRC_CLASSES[(i + 22) % n])
+    a, b, c = (3, 5, 9) if decoy else (7, 13, 22)
+    itf = (SRC_CLASSES[(i + b) % n], SRC_CLASSES[(i + c) % n])
+    return SRC_CLASSES[(i + a) % n], (itf if i % 2 == 0 else itf[::-1])
 
 
-def build_source_dex(types):
+def build_source_dex(types, decoy=False):
     from gen import dalvik as D, dexgen as G
     st = G.ACC_PUBLIC | G.ACC_STATIC
     ms, sf, inf, classes = [], [], [], []
@@ -244,7 +254,7 @@ def build_source_dex(types):
             ms.append(G.Method("new%d" % i, OBJ, (), st, G.Code(1, 0, 1, lambda ix, t=t: D.enc("new-instance", 0, ix.type(t)) + D.enc("invoke-direct", ix.method(t, "<init>", "V", ()), [0]) + D.enc("return-object", 0))))
             ms.append(G.Method("sta%d" % i, "I", (), st, G.Code(1, 0, 0, lambda ix, t=t: D.enc("sget", 0, ix.field(t, "fld", "I")) + D.enc("return", 0))))
             ms.append(G.Method("inv%d" % i, "V", (), st, G.Code(1, 0, 0, lambda ix, t=t: D.enc("invoke-static", ix.method(t, "sm", "V", ()), []) + D.enc("return-void"))))
-            sup, itf = _super_of(t)
+            sup, itf = _super_of(t, decoy)
             ctor = G.Method("<init>", "V", (), G.ACC_PUBLIC | G.ACC_CONSTRUCTOR, G.Code(1, 1, 1, lambda ix, sup=sup: D.enc("invoke-direct", ix.method(sup, "<init>", "V", ()), [0]) + D.enc("return-void")))
             classes.append(G.Class(t, superclass=sup, interfaces=itf, dmethods=[ctor]))
         if t[0] == "[":
@@ -253,15 +263,85 @@ def build_source_dex(types):
     return G.build(G.Dex([holder] + classes))
 
 
+def _decoy(types):
+    """Decoy history: the SAME class, field and method names with OTHER types (rotated by one), other superclasses and
+    interfaces, pushed through the same entry points first; results ignored.  A cache keyed by a name would show."""
+    from androguard.core import dex
+    from androguard.core.analysis.analysis import Analysis
+    from androguard.decompiler.decompile import DvClass
+    rot = [t for t in types if t != "V"]
+    cls_t = [t for t in rot if t[0] == "L"]
+    other = [t for t in rot if t[0] != "L"]
+    # class-typed slots keep a class type (the named classes must exist under the same names), rotated among themselves
+    it_c, it_o = iter(cls_t[1:] + cls_t[:1]), iter(other[1:] + other[:1])
+    dtypes = [("V" if t == "V" else next(it_c) if t[0] == "L" else next(it_o)) for t in types]
+    vm = dex.DEX(build_source_dex(dtypes, decoy=True))
+    dx = Analysis(vm)
+    for c in vm.get_classes():
+        for ast in (False, True):
+            dc = DvClass(c, dx)
+            dc.process(doAST=ast)
+            if ast:
+                dc.get_ast()
+            else:
+                dc.get_source()
+                dc.get_source_ext()
+
+
+def _typename_ok(node, desc, dims_allowed=None):
+    """AST form ['TypeName', (name, dims)]: name in binary ('a/b/C', '.int') or Java form, dims exact."""
+    dims, elem = split_desc(desc)
+    canon, qual = ref_element(elem)
+    try:
+        name, d = node[1]
+    except Exception:       # noqa
+        return False
+    names = {canon, qual, "." + canon} if elem in PRIMS else {canon, qual, elem[1:-1]}
+    return name in names and d in (dims_allowed or (dims,))
+
+
+def _walk_typenames(node, out):
+    if isinstance(node, (list, tuple)):
+        if len(node) == 2 and node[0] == "TypeName" and isinstance(node[1], (list, tuple)):
+            out.append(node)
+            return
+        for x in node:
+            _walk_typenames(x, out)
+
+
 def source_positions(types):
     """Decompile the generated classes and cut the type texts out: -> list of (position, descriptor, text, size, mode)
-    mode: "type" (canonical or qualified accepted), "qualified-name" (package + class name), "simple-name"."""
+    mode: "type" (canonical or qualified accepted), "qualified-name" (package + class name), "simple-name",
+    "ast" (text is True/False: the AST TypeName node denotes the descriptor).
+    Three entry points: get_source() text (positions 'x'), the get_source_ext() token stream ('ext:x') and the
+    get_ast() tree ('ast:x')."""
     from androguard.core import dex
     from androguard.core.analysis.analysis import Analysis
     from androguard.decompiler.decompile import DvClass, DvMethod
+    _decoy(types)
     vm = dex.DEX(build_source_dex(types))
     dx = Analysis(vm)
     out = []
+
+    def tok(toks, tag, what, nth=0, last=False):
+        hits = [t[1] for t in toks if t[0] == tag]
+        if len(hits) <= nth:
+            raise SourceLayout("%s: token %s #%d not in the ext stream %r" % (what, tag, nth, [t[:2] for t in toks][:40]))
+        return hits[-1] if last else hits[nth]
+
+    def strip(text, pre, suf, what):
+        if not (text.startswith(pre) and text.endswith(suf)):
+            raise SourceLayout("%s: token %r does not look like %r...%r" % (what, text, pre, suf))
+        return text[len(pre):len(text) - len(suf)]
+
+    def ext_and_ast(c):
+        dc = DvClass(c, dx)
+        dc.process()
+        ext = dc.get_source_ext()
+        mext = {m.name: m.get_source_ext() for m in dc.methods if isinstance(m, DvMethod)}
+        da = DvClass(c, dx)
+        da.process(doAST=True)
+        return ext, mext, da.get_ast()
 
     def need(rx, text, what, flags=re.M):
         m = re.search(rx, text, flags)
@@ -273,7 +353,53 @@ def source_positions(types):
         dc.process()
         src = dc.get_source()
         msrc = {m.name: m.get_source() for m in dc.methods if isinstance(m, DvMethod)}
+        ext, mext, ast = ext_and_ast(c)
+        amethods = {m["triple"][1]: m for m in ast["methods"]}
         if c.get_name() == "Lp/H;":
+            ftok = {}
+            for kind, toks in ext:
+                if kind == "FIELD":
+                    ftok[tok(toks, "NAME_FIELD", "field entry")] = tok(toks, "FIELD_TYPE", "field entry")
+            afields = {f["triple"][1]: f["type"] for f in ast["fields"]}
+            for i, t in enumerate(types):
+                if t != "V":
+                    for nm in ("sf%d" % i, "if%d" % i):
+                        if nm not in ftok or nm not in afields:
+                            raise SourceLayout("field %s missing from the ext stream / AST" % nm)
+                        out.append(("ext:field", t, ftok[nm], None, "type"))
+                        out.append(("ast:field", t, _typename_ok(afields[nm], t), None, "ast"))
+                    pe = mext["par%d" % i]
+                    out.append(("ext:param", t, tok(pe, "ARG_TYPE", "par", 0), None, "type"))
+                    out.append(("ext:param", t, tok(pe, "ARG_TYPE", "par", 2), None, "type"))
+                    pa = amethods["par%d" % i]["params"]
+                    out.append(("ast:param", t, _typename_ok(pa[0][0], t) and _typename_ok(pa[2][0], t), None, "ast"))
+                out.append(("ext:return", t, tok(mext["ret%d" % i], "PROTOTYPE_TYPE", "ret"), None, "type"))
+                out.append(("ast:return", t, _typename_ok(amethods["ret%d" % i]["ret"], t), None, "ast"))
+                for pre, pos, get in (
+                        ("loc", "local", lambda e: tok(e, "VARIABLE_TYPE", "loc")),
+                        ("cst", "cast", lambda e: strip(tok(e, "CHECKCAST", "cst"), "((", ") ", "cast")),
+                        ("iof", "instanceof", lambda e: tok(e, "NAME_BASE_CLASS", "iof", last=True)),
+                        ("cls", "const-class", lambda e: tok(e, "NAME_BASE_CLASS", "cls")),
+                        ("new", "new-instance", lambda e: tok(e, "NAME_CLASS_NEW", "new")),
+                        ("inv", "invoke-owner", lambda e: tok(e, "NAME_BASE_CLASS", "inv")),
+                        ("sta", "static-field-owner", lambda e: strip(tok(e, "GET_STATIC", "sta"), "", ".fld", "sget"))):
+                    e = mext.get("%s%d" % (pre, i))
+                    if e is not None:
+                        out.append(("ext:" + pos, t, get(e), None, "type"))
+                        tn = []
+                        _walk_typenames(amethods["%s%d" % (pre, i)]["body"], tn)
+                        tn = [x for x in tn if x[1][0] != "K"]
+                        out.append(("ast:" + pos, t, bool(tn) and all(_typename_ok(x, t) for x in tn), None, "ast"))
+                e = mext.get("arr%d" % i)
+                if e is not None:
+                    out.append(("ext:local", t, tok(e, "VARIABLE_TYPE", "arr"), None, "type"))
+                    na = strip(tok(e, "NEW_ARRAY", "arr"), "new ", "", "new-array") + tok(e, "CONSTANT_INTEGER", "arr") + tok(e, "NEW_ARRAY_END", "arr")
+                    out.append(("ext:new-array", t, na, 3, "type"))
+                    tn = []
+                    _walk_typenames(amethods["arr%d" % i]["body"], tn)
+                    d = split_desc(t)[0]
+                    out.append(("ast:new-array", t, any(x[1][1] == d for x in tn) and
+                                all(_typename_ok(x, t, (d - 1, d)) for x in tn), None, "ast"))
             for i, t in enumerate(types):
                 if t != "V":
                     out.append(("field", t, need(r"^    public static (.*) sf%d;$" % i, src, "static field %d" % i).group(1), None, "type"))
@@ -304,6 +430,22 @@ def source_positions(types):
             for d, g in zip(itf, got_itf):
                 out.append(("implements", d, g, None, "type"))
             out.append(("constructor", t, need(r"^    public (.*)\(\)$", src, "constructor of %s" % t).group(1), None, "simple-name"))
+            proto = [toks for kind, toks in ext if kind == "PROTOTYPE"]
+            if len(proto) != 1:
+                raise SourceLayout("ext stream of %s has %d PROTOTYPE entries" % (t, len(proto)))
+            pkg = [tok(toks, "NAME_PACKAGE", "package") for kind, toks in ext if kind == "PACKAGE"]
+            out.append(("ext:class-name", t, (pkg[0] + "." if pkg else "") + tok(proto[0], "NAME_PROTOTYPE", "header"), None, "qualified-name"))
+            out.append(("ext:extends", sup, tok(proto[0], "NAME_SUPERCLASS", "header"), None, "type"))
+            eitf = [x[1] for x in proto[0] if x[0] == "NAME_INTERFACE"]
+            if len(eitf) != len(itf):
+                raise SourceLayout("ext header of %s lists %d interfaces" % (t, len(eitf)))
+            for d, g in zip(itf, eitf):
+                out.append(("ext:implements", d, g, None, "type"))
+            out.append(("ext:constructor", t, tok(mext["<init>"], "NAME_METHOD_PROTOTYPE", "ctor"), None, "simple-name"))
+            out.append(("ast:class-name", t, _typename_ok(ast["name"], t) and ast["rawname"] == t[1:-1], None, "ast"))
+            out.append(("ast:extends", sup, _typename_ok(ast["super"], sup), None, "ast"))
+            out.append(("ast:implements", itf[0], len(ast["interfaces"]) == 2 and _typename_ok(ast["interfaces"][0], itf[0]), None, "ast"))
+            out.append(("ast:implements", itf[1], len(ast["interfaces"]) == 2 and _typename_ok(ast["interfaces"][1], itf[1]), None, "ast"))
     return out
 
 
@@ -318,7 +460,10 @@ def judge_source(types):
     for where, desc, got, size, mode in pos:
         dims, elem = split_desc(desc)
         canon, qual = ref_element(elem)
-        if mode == "type":
+        if mode == "ast":
+            bad = None if got else ("elem", "the AST does not carry this type (TypeName (name, dimensions) expected to "
+                                            "denote %r with %d dimension(s))" % (qual, dims))
+        elif mode == "type":
             bad = judge_text(got, desc, size, (canon, qual))
         elif mode == "qualified-name":
             bad = None if got == qual else ("elem", "package + class name give %r, expected %r" % (got, qual))
@@ -405,6 +550,15 @@ def run_shard(ctx, shard):
                     acc.count("shape:" + sh)
                     if bad:
                         acc.violation(bad[0], {"fn": fname, "desc": desc, "size": size}, bad[1])
+        if shard[1] == 0 and k < 4:                      # field maximum: 255 dimensions
+            desc = "[" * 255 + DEEP[k]
+            for size in SIZES:
+                for fname, fn in fns:
+                    got, bad = judge(fname, fn, desc, size)
+                    acc.case(nontrivial=(fname, desc, size), outcome=got)
+                    acc.count("array_depth_255")
+                    if bad:
+                        acc.violation(bad[0], {"fn": fname, "desc": desc, "size": size}, bad[1])
         if k % per == 3:
             acc.sample({"desc": "[[" + elem, "size": 7, "util": fns[0][1]("[[" + elem, 7), "dex": fns[1][1]("[[" + elem, 7)})
     return acc
@@ -474,7 +628,10 @@ def finalize(ctx, acc):
         acc.note("could not inspect writer bindings: %s" % e)
     acc.note("size argument: only bracket structure judged (count = dimensions, pair empty or str(size), at most one "
              "filled); HEAD prints the size in the LAST pair, e.g. get_type('[[I', 7) = 'int[][7]', not judged")
-    for where in ("field", "param", "return", "local", "cast", "instanceof", "const-class", "new-instance",
+    for where in ("ext:field", "ext:param", "ext:return", "ext:local", "ext:cast", "ext:new-array", "ext:class-name",
+                  "ext:extends", "ext:implements", "ext:constructor", "ast:field", "ast:param", "ast:return", "ast:local",
+                  "ast:cast", "ast:new-array", "ast:class-name", "ast:extends", "ast:implements",
+                  "field", "param", "return", "local", "cast", "instanceof", "const-class", "new-instance",
                   "static-field-owner", "invoke-owner", "new-array", "class-name", "extends", "implements", "constructor"):
         if not acc.extra.get("source_position:" + where):
             acc.harness_error("source position %r was never extracted" % where)
